@@ -19,6 +19,7 @@ from ..world import MCAST, Choice, RandomSeam, make_sd, timings
 
 INF = 0xFFFFFF
 REQ = ("192.0.2.61", 30490)
+REQ2 = ("192.0.2.62", 30490)
 C = 2.0 ** -7
 
 
@@ -87,7 +88,8 @@ class Sys(e2.DevSys):
                                                        eventgroups=frozenset({5})),
                                           sd.ServerServiceListener(), self.prot.announcer, self.t)
                 self.insts[i] = inst
-                self.prot.announcer.announce_service(inst)
+                if not (cfg.get("stagger") and i == 2):
+                    self.prot.announcer.announce_service(inst)
         # model
         self.started = True
         self.announced = {i: True for i in range(1, self.ninst + 1)}
@@ -95,6 +97,13 @@ class Sys(e2.DevSys):
         self.find_session = 0
         self.finds = []  # (time, channel)
         self.prot.announcer.start()
+        if cfg.get("stagger"):
+            # the second instance is announced a little later: its scheduled offers open the multicast queue at other
+            # instants than the first instance's
+            self.loop.run_until(cfg["stagger"])
+            self.place_from = cfg["stagger"]  # disturbances only after the set-up
+            self.intervals[2] = [[self.loop.time(), None, None, False]]
+            self.prot.announcer.announce_service(self.insts[2])
 
     def close(self):
         self.seam.__exit__(None, None, None)
@@ -134,6 +143,8 @@ class Sys(e2.DevSys):
             acts.append(("ann-bounce",))
             acts += [("svc-bounce", i) for i in sorted(self.announced) if self.announced[i]]
         acts += [("connlost",), ("find", 0), ("find", 1)]
+        if self.cfg.get("stagger"):
+            acts.append(("two-finds",))  # unicast FindService from two peers in one instant: two send queues hold answers
         if self.started:
             # a FindService handled and, in the same loop iteration, before its (deferred) answer, a stop
             acts += [("find+stop", 0), ("find+stop", 1)]
@@ -175,6 +186,12 @@ class Sys(e2.DevSys):
             self.finds.append((self.loop.time(), act[1]))
             data = refcodec.sd_message(self.find_session, [("find", self.sid, 0xFFFF, 0xFF, 3, 0xFFFFFFFF, (), ())])
             self.prot.datagram_received(data, REQ, bool(act[1]))
+        elif act[0] == "two-finds":
+            for peer in (REQ, REQ2):
+                self.find_session += 1
+                self.finds.append((self.loop.time(), 0))
+                data = refcodec.sd_message(self.find_session, [("find", self.sid, 0xFFFF, 0xFF, 3, 0xFFFFFFFF, (), ())])
+                self.prot.datagram_received(data, peer, False)
         elif act[0] == "find+stop":
             self.find_session += 1
             self.finds.append((self.loop.time(), act[1]))
@@ -384,6 +401,9 @@ def extra_cfgs(ctx):
                    rr=(0.0, 0.0), instances=1, helper=True) for cy in (0, 1)]
     two += [dict(sid=sid, window=(0.125, 0.25), frac=0.0, reps=1, cyclic=cy, ttl=3, collect=col, rr=(2.0 ** -5, 2.0 ** -4),
                  instances=1, endpoint_cyclic_differs=True) for cy in (0, 1) for col in (0, C)]
+    # two instances whose schedules are 3/64 s apart, answers waiting for two finders
+    two += [dict(sid=sid, window=(0.0, 0.0), frac=0.0, reps=1, cyclic=cy, ttl=ttl, collect=C, rr=(2.0 ** -5, 2.0 ** -4),
+                 instances=2, stagger=3 / 64) for cy in (0, 1) for ttl in (3, INF)]
     return two, helper
 
 
@@ -399,6 +419,9 @@ def restrict_quick(cfg, devs, p, k):
         return True
     if k == 3:
         return find_stop_start(cfg, devs, p, k) and cfg["reps"] == 1 and cfg["ttl"] == 3
+    if cfg.get("stagger"):
+        # answers for two finders are waiting, then the instance (or everything) stops before the queues fire
+        return k == 2 and devs[0][2][0] == "two-finds" and p[2] in (("svc-stop", 1), ("ann-stop",)) and p[0] - devs[0][0] <= cfg["collect"]
     # second disturbance: only within 1.25 s after the first, and only for a sub-family of configurations
     if cfg.get("helper") or cfg.get("instances", 1) > 1:
         return False
